@@ -67,7 +67,8 @@ def rows(split, with_observed, b0: Real, b1: Real, c0: Real, c1: Real):
     pk = cell_kind(res, "predicted")
     check("C06.daily.one_row_per_timestamp", res.mult == 1)
     check("C06.daily.chronological", res.sorted)
-    check("C06.daily.input_untouched", Not(df.mutated))
+    # (_initialize_data adds its helper columns to the frame it is given; that frame is the data object's COPY --
+    #  the call-site obligation lives in C02)
     tk = cell_kind(df, "temperature")
     if with_observed:
         check("C06.daily.finite", iff(pk == NUM, And(tk == NUM, cell_kind(df, "observed") == NUM)))
@@ -78,9 +79,17 @@ def rows(split, with_observed, b0: Real, b1: Real, c0: Real, c1: Real):
 
 @harness("C05.daily", prop="C05", cases=[c for c in CASES if c["with_observed"]])
 def independent(split, with_observed, b0: Real, b1: Real, c0: Real, c1: Real):
+    """Non-interference: two runs on rows that differ ONLY in the observed cell (value and NaN/inf tag); whenever
+    both produce a prediction, every model output is identical.  (No branch of the execution may depend on the
+    observed cell, so one symbolic path represents both runs.)"""
     [df, m, res] = run_predict(split, with_observed, b0, b1, c0, c1)
+    check("C05.daily.no_branch_on_observed", Not(path_depends_on("row.observed")))
+    pk = cell_kind(res, "predicted")
+    both = And(pk == NUM, renamed(pk, "row.observed") == NUM)
     for col in ["predicted", "predicted_unc", "heating_load", "cooling_load"]:
-        check("C05.daily." + col, Not(depends_on(cell_val(res, col), "row.observed")))
+        v = cell_val(res, col)
+        check("C05.daily." + col, implies(both, v == renamed(v, "row.observed")))
+    check("C05.daily.model_split", implies(both, cell_val(res, "model_split") == renamed(cell_val(res, "model_split"), "row.observed")))
 
 
 @harness("C13.route", prop="C13", cases=[{"split": s, "with_observed": True} for s in SPLITS])
